@@ -406,8 +406,12 @@ TypeOK == /\ \A r \in 1..NR : root[r].t \in {"none", "nul", "bool", "int", "num"
 -------------------------------------------------------------------------------
 (* observation: the canonical tree of every root with the facts the accessors must report, and the == matrix *)
 RECURSIVE ObsVal(_, _)
+\* contains(x) for a fixed list of probe values (entries of ScalarTab): 1 iff the Var is an array with an element == x
+ContProbe == <<3, 5, 8, 9, 11, 12, 2>>
+ContainsR(hp, x, y) == IF Kind(hp, x) = "arr" /\ \E j \in 1..Len(hp[x.v].items) : EqV(hp, hp[x.v].items[j].val, y, FALSE) THEN 1 ELSE 0
 Facts(hp, x) == [ty |-> TypeCode(hp, x), isn |-> IsCodes(hp, x), len |-> LengthOf(hp, x), i |-> ToInt(x), d2 |-> ToDbl2(x),
-                 b |-> ToBool(x), s |-> TextOf(hp, x)]
+                 b |-> ToBool(x), s |-> TextOf(hp, x),
+                 cont |-> [j \in 1..Len(ContProbe) |-> ContainsR(hp, x, ScalarTab[ContProbe[j]])]]
 ObsVal(hp, x) ==
     IF ~IsRef(x) THEN [t |-> x.t, v |-> x.v, f |-> Facts(hp, x), n |-> 0, rc |-> 0, items |-> <<>>]
     ELSE [t |-> hp[x.v].k, v |-> 0, f |-> Facts(hp, x), n |-> x.v, rc |-> hp[x.v].rc,
@@ -424,5 +428,6 @@ EqMatrix(hp, rt) == [i \in 1..(NR * NR) |-> LET a == ((i - 1) \div NR) + 1 b == 
 LiveCount(hp) == Cardinality({n \in Nodes : hp[n].k # "free"})
 View == <<root, heap, Len(hist), hz>>
 Emit == PrintT(ToJson([hist |-> hist', exp |-> ObsRoots(heap', root'), eq |-> EqMatrix(heap', root'),
-                       nodes |-> LiveCount(heap'), strs |-> StrTab, keys |-> KeyTab, hz |-> hz']))
+                       nodes |-> LiveCount(heap'), strs |-> StrTab, keys |-> KeyTab,
+                       probes |-> [j \in 1..Len(ContProbe) |-> ScalarTab[ContProbe[j]]], hz |-> hz']))
 ===============================================================================
